@@ -16,7 +16,7 @@
    The code BEFORE proposed_fixes/C43-*.diff is refuted by the schedules that were reproduced on the
    old source with the thread controller (harness/props/C43.py re-runs them on the current code).
    Tie to /repo: harness/props/C43.py (K3, medium granularity, same-schedule comparison). *)
-From RxVerif Require Import Base.Prelude Core.Lts Core.LtsFacts Core.CombConc Core.CombConcFacts.
+From RxVerif Require Import Base.Prelude Core.Lts Core.LtsFacts Core.CombConc Core.CombConcFacts Core.CombConcFacts2.
 Local Open Scope nat_scope.
 
 Definition C43_statement {S} (c : @config (gsh S) pos sev cobs) : Prop :=
@@ -66,6 +66,48 @@ Theorem C43_amb :
   (forall tid t, nth_error (c_ths c) tid = Some t -> tinside t = true -> am_choice (g_st (c_sh c)) = Some tid).
 Proof. exact amb_serial. Qed.
 Print Assumptions C43_amb.
+
+(* amb: EVERY downstream call of the whole run was made by one thread -- the side recorded in
+   [choice] -- so any two calls in the log come from the same thread.  The output of an amb is thus
+   a serial single-thread source, which is what an enclosing amb (amb(a, b, c) = a fold of binary
+   ambs, each with its own lock) assumes of its own sources in C43_amb. *)
+Theorem C43_amb_single_caller :
+  forall progs sched tid d,
+    In (tid, CEnter d) (c_log (run_am progs sched)) ->
+    am_choice (g_st (c_sh (run_am progs sched))) = Some tid.
+Proof. exact amb_single_caller. Qed.
+Print Assumptions C43_amb_single_caller.
+
+Theorem C43_amb_callers_agree :
+  forall progs sched t1 d1 t2 d2,
+    In (t1, CEnter d1) (c_log (run_am progs sched)) -> In (t2, CEnter d2) (c_log (run_am progs sched)) -> t1 = t2.
+Proof. exact amb_callers_agree. Qed.
+Print Assumptions C43_amb_callers_agree.
+
+(* the hypothesis is satisfiable in a contended run (both sides reach the lock; the left one wins) *)
+Example C43_witness_amb_single_caller :
+  In (0, CEnter DDone) (c_log (run_am [[SNext; SNext; SDone]; [SNext; SErr]] [0;0;1;0;1;1;0;0;1;1;0;0;0;0;0;0;0;0;1;1])) /\
+  am_choice (g_st (c_sh (run_am [[SNext; SNext; SDone]; [SNext; SErr]] [0;0;1;0;1;1;0;0;1;1;0;0;0;0;0;0;0;0;1;1]))) = Some 0.
+Proof. vm_compute. split; [tauto|reflexivity]. Qed.
+
+(* WHAT THE GRAMMAR CONJUNCT IS WORTH.  Conjunct 2 of C43_statement (what the subscriber's callbacks
+   see is Next* (Err|Done)?) holds for EVERY step function whatsoever, with no hypothesis on the
+   operator: it is a property of the subscriber's AutoDetachObserver as modelled -- ONE atomic
+   test-and-set of is_stopped -- and therefore NOT evidence about the operators (it also holds of
+   the old, refuted code).  That the real, unsynchronised wrapper behaves atomically is exactly what
+   seriality (conjunct 1) is needed for; the model does not derive the one from the other. *)
+Theorem C43_grammar_is_wrapper :
+  forall (S : Type) (ostep : nat -> S -> pos -> option (S * option pos)) (st0 : S)
+         (progs : list (list sev)) (sched : list nat),
+    gram (users (untag (c_log (grun ostep st0 progs sched)))) = true.
+Proof. exact grammar_is_wrapper. Qed.
+Print Assumptions C43_grammar_is_wrapper.
+
+(* ... e.g. on the old zip and its refuting schedule: not serial, yet "grammatical" *)
+Example C43_witness_grammar_holds_of_refuted_code :
+  serial (untag (c_log (run_zip false [[SNext; SDone]; [SNext; SNext]] [0;0;0;0;0;1;1;1;1;0;0;1;1;1;1]))) = false /\
+  gram (users (untag (c_log (run_zip false [[SNext; SDone]; [SNext; SNext]] [0;0;0;0;0;1;1;1;1;0;0;1;1;1;1])))) = true.
+Proof. vm_compute. split; reflexivity. Qed.
 
 (* the generic theorem behind the seven lock-based ones: ANY operator whose step function (1) reaches
    a lock-holding position only from an acquisition or a lock-holding position and (2) makes every
